@@ -664,6 +664,47 @@ Proof.
   intros sw1 sw2 evs n. unfold table_of, Route.consume.
   rewrite (tables_fold_indep sw1 sw2 evs (sinks0 chunk) (sinks0 chunk) eq_refl). reflexivity.
 Qed.
+
+(** C05: every value that reaches the TABLE of user number n also reaches its STRING (in order), provided the engine
+    punches values only while the text sinks are on (punch_on) — the hypothesis [vals_on] that the correspondence
+    checks on every recorded stream.  Without it the table can hold rows the string lacks ([punch_on_needed]). *)
+Definition val_texts (n : Z) (e : ev) : list chunk :=
+  match e with EPunchVal m _ _ _ _ c => if Z.eqb n m then [c] else [] | _ => [] end.
+
+Definition vals_on (n : Z) (evs : list ev) : Prop :=
+  forall on fo name v c, In (EPunchVal n on fo name v c) evs -> on = true.
+
+Lemma val_texts_sublist_on : forall n e, (forall on fo name v c, e = EPunchVal n on fo name v c -> on = true) ->
+  sublist (val_texts n e) (sel_chunks n e).
+Proof.
+  intros n e H.
+  destruct e as [on c|on c|c stop oon lon|c oon lon|m on fopen c|m on fopen name v c|m pending|m|m opened];
+    simpl; try apply sl_nil.
+  destruct (Z.eqb n m) eqn:E; [|destruct on; apply sl_nil].
+  apply Z.eqb_eq in E. subst m. rewrite (H on fopen name v c eq_refl).
+  apply sl_keep. apply sl_nil.
+Qed.
+
+Theorem table_values_in_string : forall sw evs n, SelStringOn sw n = true -> vals_on n evs ->
+  sublist (flat_map (val_texts n) evs) (sel_string chunk (consume sw evs) n).
+Proof.
+  intros sw evs n Hs Hon. rewrite sel_string_spec, Hs. unfold vals_on in Hon.
+  induction evs as [|e t IH]; simpl.
+  - apply sl_nil.
+  - apply sublist_app.
+    + apply val_texts_sublist_on. intros on fo name v c He. apply (Hon on fo name v c). left. exact He.
+    + apply IH. intros on fo name v c Hin. apply (Hon on fo name v c). right. exact Hin.
+Qed.
+
+(** necessity of the hypothesis: one value punched while punch_on is false lands in the table and not in the string *)
+Theorem punch_on_needed : forall sw (name : string) (v : cell) (c : chunk), SelStringOn sw 1%Z = true ->
+  let evs := [ENewTable 1%Z; EPunchVal 1%Z false false name v c; EEndRow 1%Z []] in
+  sel_string chunk (consume sw evs) 1%Z = [] /\ flat_map (val_texts 1%Z) evs = [c] /\
+  flat_map (so_ops 1%Z) evs = [OPush name v; OEndRow].
+Proof.
+  intros sw name v c Hs evs. rewrite sel_string_spec, Hs. subst evs. simpl. repeat split.
+Qed.
+
 End R.
 
 (* Lines.v *)
